@@ -114,12 +114,34 @@ def oracle_c02(ctx: Ctx, n):
     ctx.sample({"stream": "oracle-C02", "a": parsed[0][0], "b": parsed[-1][0]})
 
 
+def pv_long_operand(texts) -> bool:
+    """does some atom compare python_version with an operand that keeps more than two meaningful release segments
+    (non-zero third segment; for ~=: four segments or a non-zero third)? python_version is always X.Y, so such atoms are
+    constant or redundant; the code merges them with python_full_version atoms as if they were full versions (recorded finding)"""
+    import re
+    for t in texts:
+        for m in re.finditer(r'python_version\s*(~=|==|!=|<=|>=|<|>)\s*"([^"]*)"|"([^"]*)"\s*(~=|==|!=|<=|>=|<|>)\s*python_version', t or ""):
+            op, lit = (m.group(1), m.group(2)) if m.group(1) else (m.group(4), m.group(3))
+            rel = re.match(r"\s*(?:\d+!)?(\d+(?:\.\d+)*)", lit)
+            if not rel:
+                continue
+            r = [int(x) for x in rel.group(1).split(".")]
+            if op == "~=":
+                if len(r) >= 4 or (len(r) == 3 and r[2] != 0):
+                    return True
+            elif any(x != 0 for x in r[2:]):
+                return True
+    return False
+
+
 def env_class(texts, env) -> str:
     """class prefix for findings that are instances of the recorded `in`-list defect: an atom
     `python_version [not] in "<list>"` whose environment value is a SUBSTRING of the list text but not one of
     its comma-separated elements (e.g. 3.1 against "3.9, 3.10"): evaluation is PEP 508 string containment,
     the specifier view treats the list as a set of versions"""
     import re
+    if pv_long_operand(texts):
+        return "pv-long-operand|"
     for t in texts:
         for var, lst in re.findall(r'(python_version|python_full_version) (?:not in|in) "([^"]*)"', t or ""):
             val = env.get(var)
@@ -674,6 +696,10 @@ def _c10_class(probe, hist, warm=None, cold=None):
 
 
 CORPUS_TEXTS = [
+    '"lin" in sys_platform and sys_platform == "linux"', '"lin" in sys_platform or sys_platform == "win32"', '(sys_platform == "linux" or sys_platform == "linux2") and "2" in sys_platform',   # literal-on-the-left containment (fixed 0a9cbbb)
+    '(sys_platform != "linux" and sys_platform != "linux2") or "lin" not in sys_platform', '"3.1" in python_version and python_version >= "3.10"',
+    'implementation_version == "3.8" or implementation_version == "3.9"', 'implementation_version != "3.8" and implementation_version != "3.9"',       # version-valued but once grouped as strings (fixed e54358e)
+    'implementation_version >= "7.3.1" and implementation_version >= "7.3.10"',
     'python_version >= "3.8" and python_full_version >= "3.9a1"', 'python_full_version > "3.9rc1" and python_version >= "3.8"', 'python_full_version >= "3.8.post1" and python_version >= "3.8"',
     '"3.8" <= python_version', 'python_version >= "3.8"', 'os_name == "a" or os_name == "b"', 'os_name != "a"',
     'python_version ~= "3.8"', 'python_full_version ~= "3.8.1"', 'python_version in "3.6, 3.7"', 'python_version not in "3.6, 3.7"',
